@@ -286,7 +286,8 @@ def c10_oracle(ctx, g):
         want = e if isinstance(e, str) else ("T" if e else "F")
         ctx.distinct.add((c.pattern, ch))
         if a != want and not out:
-            out.append(f"{c.pattern!r} on U+{ord(ch):04X}: answered {a}, the Unicode / XML data say {want}" if ch else f"{c.pattern!r}: answered {a}, expected {want}")
+            cpt = " ".join("U+%04X" % ord(x) for x in ch)
+            out.append(f"{c.pattern!r} on {cpt}: answered {a}, the Unicode / XML data say {want}" if ch else f"{c.pattern!r}: answered {a}, expected {want}")
     if len(ctx.samples) < 8:
         ctx.samples.append({"escape": g.cases[0].pattern, "tested": len(g.cases)})
     return out
